@@ -221,7 +221,7 @@ func C18(tier string) int {
 	if tier == "thorough" {
 		maxTx = 3
 	}
-	run.Rule = fmt.Sprintf("1..%d consecutive LMTP transactions on one client connection x 1..3 recipients each x every recipient in {refused at RCPT, accepted+ok, accepted+4xx, accepted+5xx} x {LMTPData with callback, Data() without, LMTPData(nil), alternating from transaction to transaction} x server backend {per-recipient statuses (set before/after the message is read), single result}; real client <-> real server in a synctest bubble (a client blocked on a reply that never comes is a runtime-detected deadlock). Distinct by construction; non-trivial = more than one transaction or a refusal. Oracle: callback exactly once per recipient accepted in THIS transaction, in order, with that recipient's own reply; Close returns after exactly those replies (a following NOOP is in step); without callback a refusal comes back from Close. In addition a SCRIPTED LMTP server that accepts recipients with 250, 251 or 252 (or refuses with 550): all recipient lists of <=3 over {250,251,252,550} x all final verdict vectors x {callback, none} x a second transaction.", maxTx)
+	run.Rule = fmt.Sprintf("1..%d consecutive LMTP transactions on one client connection x 1..3 recipients each x every recipient in {refused at RCPT, accepted+ok, accepted+4xx, accepted+5xx} x {LMTPData with callback, Data() without, LMTPData(nil), alternating from transaction to transaction} x server backend {per-recipient statuses (set before/after the message is read), single result}; real client <-> real server in a synctest bubble (a client blocked on a reply that never comes is a runtime-detected deadlock). Distinct by construction; non-trivial = more than one transaction or a refusal. Oracle: callback exactly once per recipient accepted in THIS transaction, in order, with that recipient's own reply; Close returns after exactly those replies (a following NOOP is in step); without callback a refusal comes back from Close. In addition a SCRIPTED LMTP server that accepts recipients with 250, 251 or 252 (or refuses with 550): all recipient lists of <=3 over {250,251,252,550} x all final verdict vectors x {callback, none} x a second transaction; final replies with byte-identical text and different codes (450/550), and 421 as the verdict for one recipient, each followed by another transaction.", maxTx)
 	var txs []string
 	enumStrings([]byte("rotp"), 3, func(s []byte) {
 		if len(s) > 0 {
@@ -309,9 +309,18 @@ func evalC18Script(c C18ScriptCase) *h.Finding {
 			inData = false
 			var sb strings.Builder
 			for i, r := range accepted {
-				if c.Final[tx][i] == 'o' {
+				switch c.Final[tx][i] {
+				case 'o':
 					fmt.Fprintf(&sb, "250 2.1.5 <%s> delivered\r\n", r)
-				} else {
+				case 't':
+					// the same text as 'q' down to the last octet, another reply code
+					sb.WriteString("450 4.2.2 over quota\r\n")
+				case 'q':
+					sb.WriteString("550 4.2.2 over quota\r\n")
+				case 'x':
+					// 421 as the verdict for ONE recipient: a reply like any other, the connection goes on
+					fmt.Fprintf(&sb, "421 4.3.2 <%s> shutting down this queue\r\n", r)
+				default:
 					fmt.Fprintf(&sb, "550 5.2.2 <%s> mailbox full\r\n", r)
 				}
 			}
@@ -379,15 +388,23 @@ func evalC18Script(c C18ScriptCase) *h.Finding {
 				type got struct {
 					rcpt string
 					ok   bool
+					code int
 				}
 				var calls []got
+				codeOf := map[byte]int{'o': 0, 'p': 550, 't': 450, 'q': 550, 'x': 421}
 				var w interface {
 					Write([]byte) (int, error)
 					Close() error
 				}
 				var err error
 				if c.UseCB {
-					w, err = cl.LMTPData(func(r string, st *smtp.SMTPError) { calls = append(calls, got{r, st == nil}) })
+					w, err = cl.LMTPData(func(r string, st *smtp.SMTPError) {
+						g := got{rcpt: r, ok: st == nil}
+						if st != nil {
+							g.code = st.Code
+						}
+						calls = append(calls, g)
+					})
 				} else {
 					w, err = cl.Data()
 				}
@@ -403,12 +420,12 @@ func evalC18Script(c C18ScriptCase) *h.Finding {
 						return
 					}
 					for i, wnt := range want {
-						if calls[i].rcpt != wnt || calls[i].ok != (c.Final[ti][i] == 'o') {
-							f = h.F("c18s-callback-status", "%s: transaction %d: callback %d was (%s, ok=%t), want (%s, ok=%t)", desc, ti, i, calls[i].rcpt, calls[i].ok, wnt, c.Final[ti][i] == 'o')
+						if calls[i].rcpt != wnt || calls[i].ok != (c.Final[ti][i] == 'o') || calls[i].code != codeOf[c.Final[ti][i]] {
+							f = h.F("c18s-callback-status", "%s: transaction %d: callback %d was (%s, ok=%t, code %d), want (%s, ok=%t, code %d)", desc, ti, i, calls[i].rcpt, calls[i].ok, calls[i].code, wnt, c.Final[ti][i] == 'o', codeOf[c.Final[ti][i]])
 							return
 						}
 					}
-				} else if (cerr != nil) != strings.Contains(c.Final[ti], "p") {
+				} else if (cerr != nil) != strings.ContainsAny(c.Final[ti], "ptqx") {
 					f = h.F("c18s-close", "%s: transaction %d: Close returned %v", desc, ti, cerr)
 					return
 				}
@@ -433,6 +450,14 @@ func evalC18Script(c C18ScriptCase) *h.Finding {
 
 func init() { h.RegisterReplayer("c18-script", evalC18Script) }
 
+func reverse(s string) string {
+	b := []byte(s)
+	for i, j := 0, len(b)-1; i < j; i, j = i+1, j-1 {
+		b[i], b[j] = b[j], b[i]
+	}
+	return string(b)
+}
+
 func c18ScriptCases(maxTx int) []C18ScriptCase {
 	var txs []struct{ rc, fin string }
 	enumStrings([]byte("012r"), 3, func(s []byte) {
@@ -452,6 +477,16 @@ func c18ScriptCases(maxTx int) []C18ScriptCase {
 		})
 	})
 	var out []C18ScriptCase
+	// identical reply texts with different codes, and 421 as the verdict for one recipient - followed by another
+	// transaction on the connection
+	for _, fin := range []string{"tq", "qt", "tqt", "qtq", "tt", "qq", "xo", "ox", "oxo", "pxp", "xx", "x"} {
+		rc := strings.Repeat("0", len(fin))
+		for _, cb := range []bool{true, false} {
+			out = append(out, C18ScriptCase{Tx: []string{rc}, Final: []string{fin}, UseCB: cb},
+				C18ScriptCase{Tx: []string{rc, "01"}, Final: []string{fin, "op"}, UseCB: cb},
+				C18ScriptCase{Tx: []string{rc, rc}, Final: []string{fin, reverse(fin)}, UseCB: cb})
+		}
+	}
 	for _, a := range txs {
 		for _, cb := range []bool{true, false} {
 			out = append(out, C18ScriptCase{Tx: []string{a.rc}, Final: []string{a.fin}, UseCB: cb})
